@@ -821,22 +821,27 @@ func (r *reference) judge(o Op, res result) *failure {
 		case r.isFile && viaFile:
 			// the content is present (Exists answers true through the named file), yet the
 			// unnamed push goes to the fallback storage
-			if res.err == nil || restoreErr(res.err) {
+			if errors.Is(res.err, errdef.ErrAlreadyExists) {
+				return nil // refused, as the property demands
+			}
+			{
+				// the push went to the fallback storage; restoreDuplicates / graph.Index followed
+				wasClobbered := r.clobbered[string(d.Digest)]
 				st := stored{desc: d, bytes: b, node: o.Node}
 				f := r.afterStore(o, d, res, &st)
 				r.content[r.key(d)] = st
 				if f != nil && f.sig != "push-refused" {
 					return f
 				}
-				return fail("file-present-unnamed-push-accepted", "unnamed push %s of content already present through a named file was accepted", o)
-			}
-			if !errors.Is(res.err, errdef.ErrAlreadyExists) {
-				if r.clobbered[string(d.Digest)] {
-					// the push went to the fallback storage, then Successors read the clobbered file back
-					r.content[r.key(d)] = stored{desc: d, bytes: b, node: o.Node, noIndex: true}
+				if res.err != nil && (wasClobbered || r.clobbered[string(d.Digest)]) {
+					st.noIndex = true
+					r.content[r.key(d)] = st
 					return fail("file-name-alias-overwrite", "unnamed push %s => %v: the file this digest points to was overwritten through a second name for its path", o, res.err)
 				}
-				return fail("push-present", "push of present content %s returned %v", o, res.err)
+				if res.err != nil {
+					return fail("push-present", "push of present content %s returned %v", o, res.err)
+				}
+				return fail("file-present-unnamed-push-accepted", "unnamed push %s of content already present through a named file was accepted", o)
 			}
 		default:
 			st := stored{desc: d, bytes: b, node: o.Node}
